@@ -264,6 +264,18 @@ fn calculate_selection<'a>(
         }
     }
 
+    calculate_fields(context, selection_set, struct_id, type_id, options);
+}
+
+/// Expands the fields, fragment spreads and (on objects) inline fragments of a
+/// selection set into fields of the `struct_id` struct.
+fn calculate_fields<'a>(
+    context: &mut ExpandedSelection<'a>,
+    selection_set: &[SelectionId],
+    struct_id: ResponseTypeId,
+    type_id: TypeId,
+    options: &'a GraphQLClientCodegenOptions,
+) {
     for id in selection_set {
         let selection = context.query.query.get_selection(*id);
 
@@ -335,7 +347,14 @@ fn calculate_selection<'a>(
                 };
             }
             Selection::Typename => (),
-            Selection::InlineFragment(_inline) => (),
+            Selection::InlineFragment(inline) => {
+                // On interfaces and unions, inline fragments are rendered in
+                // the `on` variants. On an object, the type condition always
+                // holds, so the fields of the fragment belong to the object.
+                if let TypeId::Object(_) = type_id {
+                    calculate_fields(context, &inline.selection_set, struct_id, type_id, options);
+                }
+            }
             Selection::FragmentSpread(fragment_id) => {
                 // Here we only render fragments that are directly on the type
                 // itself, and not on one of its variants.
@@ -345,8 +364,10 @@ fn calculate_selection<'a>(
                 // Assuming the query was validated properly, a fragment spread
                 // is either on the field's type itself, or on one of the
                 // variants (union or interfaces). If it's not directly a field
-                // on the struct, it will be handled in the `on` variants.
-                if fragment.on != type_id {
+                // on the struct, it will be handled in the `on` variants. An
+                // object has no variants: a fragment on one of its interfaces
+                // or unions applies to the object itself.
+                if fragment.on != type_id && !matches!(type_id, TypeId::Object(_)) {
                     continue;
                 }
 
